@@ -62,6 +62,21 @@ def lemmas(idx):
                             d = rows; lanes = [e(r, c) for c in range(d) for r in range(d)] + ([e(r, d) for r in range(d)] if scols > d else ['k0'] * d)
                         else: lanes = colmajor(e, rows, cols)
                         add(cfg, f, vs, [tree_coq(m)], st, lanes, 'same entries (%s from %s)' % (tn, sn))
+                elif tn in ('Quat', 'DQuat') and not f['has_self'] and len(ps) == 1 and name in ('from_mat3', 'from_mat3a', 'from_mat4') and tname(ps[0][1]) in SHAPE:
+                    # matrix -> quaternion: the four branches of the trace-free construction (DirectXMath XMQuaternionRotationMatrix), m[r][c] = entry (row r, column c)
+                    vs = []; m, M = entries(structs, ps[0][1], 'm', vs); kf = 'f32' if tn == 'Quat' else 'f64'; hf = '(lit32 1056964608)' if kf == 'f32' else '(lit64 4602678819172646912)'
+                    # glam names m01 = x_axis.y (column 0, row 1): c[i][j] = M[j][i]
+                    c = [[M[j][i] for j in range(3)] for i in range(3)]
+                    m00, m01, m02 = c[0]; m10, m11, m12 = c[1]; m20, m21, m22 = c[2]
+                    dif = '(%s - %s)%%K' % (m11, m00); sm = '(%s + %s)%%K' % (m11, m00)
+                    def q4(t, comps): i = '(%s / k_un FSqrt %s)%%K' % (hf, t); return [('(%s * %s)%%K' % (t, i)) if x is None else ('(%s * %s)%%K' % (x, i)) for x in comps]
+                    tx = '((k1 - %s) - %s)%%K' % (m22, dif); ty = '((k1 - %s) + %s)%%K' % (m22, dif); tz = '((k1 + %s) - %s)%%K' % (m22, sm); tw = '((k1 + %s) + %s)%%K' % (m22, sm)
+                    P = lambda a_, b_: '(%s + %s)%%K' % (a_, b_); Mn = lambda a_, b_: '(%s - %s)%%K' % (a_, b_)
+                    br = [('x^2 largest', [alg.cmp_hyp('FLe', m22, 'k0', True), alg.cmp_hyp('FLe', dif, 'k0', True)], q4(tx, [None, P(m01, m10), P(m02, m20), Mn(m12, m21)])),
+                          ('y^2 largest', [alg.cmp_hyp('FLe', m22, 'k0', True), alg.cmp_hyp('FLe', dif, 'k0', False)], q4(ty, [P(m01, m10), None, P(m12, m21), Mn(m20, m02)])),
+                          ('z^2 largest', [alg.cmp_hyp('FLe', m22, 'k0', False), alg.cmp_hyp('FLe', sm, 'k0', True)], q4(tz, [P(m02, m20), P(m12, m21), None, Mn(m01, m10)])),
+                          ('w^2 largest', [alg.cmp_hyp('FLe', m22, 'k0', False), alg.cmp_hyp('FLe', sm, 'k0', False)], q4(tw, [Mn(m12, m21), Mn(m20, m02), Mn(m01, m10), None]))]
+                    for nm, hy, lanes in br: add(cfg, f, vs, [tree_coq(m)], st, lanes, 'matrix -> quaternion, branch %s' % nm, hyps=hy, tactic=alg.cond_tac())
                 elif tn in ('Affine3A', 'DAffine3', 'Affine2', 'DAffine2') and f['has_self']:
                     rows, cols = SHAPE[tn]; d = rows
                     if tr == 'Mul' and name == 'mul' and len(ps) == 1 and tname(ps[0][1]) == tn:
@@ -90,7 +105,7 @@ def run(tier, seed):
     t0 = time.time(); idx, info = flow.prepare()
     files, notes, cover = lemmas(idx)
     per_fn = 6 if tier == 'quick' else 60
-    return f1.run('C05', tier, seed, idx, info, t0, files, notes, cover, alg.BOILER, per_fn,
+    return f1.run('C05', tier, seed, idx, info, t0, files, notes, cover, alg.BOILER_MOD, per_fn,
         'one lemma per conversion between transform representations (from_quat, Mat3<->Mat3A, embeddings into Mat4, Affine<->matrix, f32<->f64), per affine product and affine inverse, three backends, against common entry formulas over an arbitrary field; correspondence: %d random calls per function' % per_fn,
         ['entry formulas in harness/props/C05.py (shared with C10)', 'the action of each representation on points/vectors is the one proved in C06/C11/C04'],
         ['matrix -> quaternion conversions (from_mat3, from_rotation_axes) and float-level agreement bounds of conversion chains are differential only'], footer=alg.FOOTER)
